@@ -34,6 +34,7 @@ ASSUMPTIONS = [
     'count is combined only with templates that keep captures in source order (walk order of the new tree == walk order of the old)',
 ]
 
+# plus the separate 'loop' case kind (run_loop)
 SCENARIOS = ('wrap_name', 'wrap_name_attr', 'binop_call', 'call_retarget', 'list_tuple', 'if_while', 'return_wrap', 'identity_name', 'expr_stmt_pass', 'identity_binop')
 
 
@@ -51,6 +52,10 @@ def floors(tier):
 def strategy(tier):
     @st.composite
     def strat(draw):
+        if draw(st.integers(0, 5)) == 0:  # loop settings on generated collapse chains
+            return {'kind': 'loop', 'chains': draw(st.lists(st.integers(0, 7), min_size=1, max_size=6)), 'loop': draw(st.sampled_from([False, True, 0, 1, 2, 3, 4])),
+                    'count': draw(st.sampled_from([0, 0, 1, 2, 3])), 'shape': draw(st.integers(0, 3)), 'form': draw(st.integers(0, 1))}
+
         return {'src': draw(gen.program(35)), 'scn': draw(st.integers(0, len(SCENARIOS) - 1)), 'nested': draw(st.booleans()), 'count': draw(st.sampled_from([0, 0, 0, 1, 2, 3])),
                 'leave': draw(st.integers(0, 4)) == 0, 'back': draw(st.integers(0, 5)) == 0}
 
@@ -240,7 +245,86 @@ def pattern_and_template(scn):
     raise AssertionError(scn)
 
 
+def run_loop(case, ctx):
+    """`loop`: every location is substituted again while it still matches, up to `loop` times (True / 0: until it no longer matches); `count`
+    counts locations. Collapse chains 'not not X' -> 'X' (or wrapper calls w(w(X)) -> X) of drawn depths at several locations; the reference is
+    arithmetic on the chain depths."""
+
+    from ast import Not
+
+    from fst.match import M, MCall, MName, MUnaryOp
+
+    chains, loop, count, shape, form = case['chains'], case['loop'], case['count'], case['shape'], case['form']
+
+    def chain(k, name):
+        return ('not ' * k + name) if form == 0 else ('w(' * k + name + ')' * k)
+
+    def line(i, k):
+        e = chain(k, f'a{i}')
+
+        return [f'r{i} = {e}', f'r{i} = [{e}, b{i}]', f'if {e}:\n    pass', f'r{i} = f(x, k={e})'][(shape + i) % 4]
+
+    src = '\n'.join(line(i, k) for i, k in enumerate(chains))
+    unlimited = loop is True or (loop is not False and loop <= 0)
+    per_loc = 1 if loop is False else (10 ** 9 if unlimited else loop)
+    out_chains, n_unique, n_total = [], 0, 0
+
+    for k in chains:
+        if k >= 2 and (not count or n_unique < count):
+            it = min(per_loc, k // 2)
+            n_unique += 1
+            n_total += it
+            out_chains.append(k - 2 * it)
+        else:
+            out_chains.append(k)
+
+    exp_src = '\n'.join(line(i, k) for i, k in enumerate(out_chains))
+
+    if form == 0:
+        pat, repl = MUnaryOp(op=Not, operand=MUnaryOp(op=Not, operand=M(x=...))), '__FST_x'
+    else:
+        pat, repl = MCall(func=MName('w'), args=[MCall(func=MName('w'), args=[M(x=...)], keywords=[])], keywords=[]), '__FST_x'
+
+    kw = {'loop': loop}
+
+    if count:
+        kw['count'] = count
+
+    desc = f'subn(collapse {"not not X" if form == 0 else "w(w(X))"} -> X, {kw}) on chains of depth {chains}'
+    site = f'loop:{"not" if form == 0 else "call"}'
+    root = FST(src, 'exec')
+    ctx.count('subs')
+    ctx.count('scenario:loop')
+
+    try:
+        out, got_unique, got_total = root.subn(pat, repl, **kw)
+    except Exception as exc:
+        raise Violation('C18.loop_raise', f'{desc} raised {exc!r}\n--- before ---\n{src}', f'raise:{site}') from None
+
+    try:
+        got_S = c07.norm_dump(ast.parse(root.src))
+    except SyntaxError as exc:
+        raise Violation('C18.unparsable', f'{desc}: result does not parse: {exc!r}\n--- after ---\n{root.src[:600]}', site) from None
+
+    if got_S != c07.norm_dump(ast.parse(exp_src)):
+        raise Violation('C18.loop', f'{desc}: result differs from the reference\n--- before ---\n{src}\n--- after ---\n{root.src}\n--- reference ---\n{exp_src}', site)
+
+    try:
+        c01.check_invariant(root, None, 'C18.c01')
+    except Violation as v:
+        raise Violation('C18.c01', f'{desc}: {v.msg[:800]}', site) from None
+
+    if (got_unique, got_total) != (n_unique, n_total):
+        raise Violation('C18.counts', f'{desc}: subn reports ({got_unique}, {got_total}), reference ({n_unique} locations, {n_total} substitutions)', f'counts:{site}')
+
+    if n_total > n_unique or (count and sum(k >= 2 for k in chains) > count):
+        ctx.mark_nontrivial(case, {'source': src, 'settings': kw, 'after': root.src, 'counts': [got_unique, got_total]} if len(chains) == 3 else None)
+
+
 def execute(case, ctx):
+    if case.get('kind') == 'loop':
+        return run_loop(case, ctx)
+
     src = case['src']
 
     if c01.excluded(src) or c04.LONE_CONT.search(src):
